@@ -142,6 +142,7 @@ pub fn enc(values: &[V]) -> Result<Vec<u8>, String> {
 struct Rd<'a> {
     b: &'a [u8],
     pos: usize,
+    max_depth: usize,
 }
 
 impl<'a> Rd<'a> {
@@ -175,7 +176,7 @@ impl<'a> Rd<'a> {
         let s = std::str::from_utf8(raw).map_err(|e| format!("invalid utf-8 at {}: {}", self.pos, e))?;
         Ok(S::lit(s))
     }
-    fn pairs(&mut self) -> Result<Vec<(S, V)>, String> {
+    fn pairs(&mut self, depth: usize) -> Result<Vec<(S, V)>, String> {
         let mut out = Vec::new();
         loop {
             let name = self.string()?;
@@ -189,11 +190,14 @@ impl<'a> Rd<'a> {
                 }
                 return Ok(out);
             }
-            let v = self.value(1)?;
+            let v = self.value(depth + 1)?;
             out.push((name, v));
         }
     }
-    fn value(&mut self, _depth: usize) -> Result<V, String> {
+    fn value(&mut self, depth: usize) -> Result<V, String> {
+        if depth > self.max_depth {
+            return Err(format!("nesting deeper than {}", self.max_depth));
+        }
         let m = self.u8()?;
         Ok(match m {
             M_NUMBER => {
@@ -204,18 +208,21 @@ impl<'a> Rd<'a> {
             }
             M_BOOLEAN => V::Bool(self.u8()?),
             M_STRING => V::Str(self.string()?),
-            M_OBJECT => V::Obj(self.pairs()?),
+            M_OBJECT => V::Obj(self.pairs(depth)?),
             M_NULL => V::Null,
             M_UNDEFINED => V::Undef,
             M_ECMA => {
                 let c = self.u32()?;
-                V::Ecma(c, self.pairs()?)
+                V::Ecma(c, self.pairs(depth)?)
             }
             M_STRICT_ARRAY => {
                 let c = self.u32()?;
+                if c as usize > self.b.len() - self.pos {
+                    return Err(format!("strict array announces {} elements, {} bytes left", c, self.b.len() - self.pos));
+                }
                 let mut items = Vec::new();
                 for _ in 0..c {
-                    items.push(self.value(1)?);
+                    items.push(self.value(depth + 1)?);
                 }
                 V::Arr(items)
             }
@@ -228,7 +235,13 @@ impl<'a> Rd<'a> {
 /// Iterative nesting is bounded by the caller (the harness only feeds it library output and its
 /// own encodings of bounded depth).
 pub fn dec_strict(bytes: &[u8]) -> Result<Vec<V>, String> {
-    let mut rd = Rd { b: bytes, pos: 0 };
+    dec_strict_bounded(bytes, 1_000)
+}
+
+/// Same, refusing nesting deeper than `max_depth` (the strict-array count is also checked
+/// against the remaining input so a hostile count cannot make the reference itself allocate).
+pub fn dec_strict_bounded(bytes: &[u8], max_depth: usize) -> Result<Vec<V>, String> {
+    let mut rd = Rd { b: bytes, pos: 0, max_depth };
     let mut out = Vec::new();
     while rd.pos < bytes.len() {
         out.push(rd.value(0)?);
